@@ -506,9 +506,10 @@ def local_dimensionality(x, k=30, x_query=None, neighbor_idx=None):
     This function computes the local fractal dimension of a dataset at query points.
     It uses nearest neighbors and fits a line in log-log space to estimate the fractal dimension.
     """
-    x = ensure_2d(x)
-    if x_query is not None:
-        x_query = ensure_2d(x_query)
+    if x.ndim == 1:
+        x = x[:, None]
+    if x_query is not None and x_query.ndim == 1:
+        x_query = x_query[:, None]
     if k > x.shape[0]:
         logger.warning(
             f"Number of nearest neighbors (k={k}) is "
